@@ -170,8 +170,8 @@ def run(ctx, out, tier):
             ec = rl[("end", "character")]
             # start column: pointer offset of the trimmed text, or Match::range().start
             ptr = P.has_call(sc, r"<impl str>::as_ptr$")
-            rstart = any(l[0] == "call" and re.search(r"regex::Match(::<'h>)?::range$", l[1]) and "start" in l[2] for l in sc)
-            rend_in_start = any(l[0] == "call" and re.search(r"regex::Match(::<'h>)?::range$", l[1]) and "end" in l[2] for l in sc)
+            rstart = any(l[0] == "call" and re.search(r"regex::Match(::<'h>)?::range$", l[1]) and "start" in l[2] for l in sc) or P.has_call(sc, r"regex::Match(::<'h>)?::start$")
+            rend_in_start = any(l[0] == "call" and re.search(r"regex::Match(::<'h>)?::range$", l[1]) and "end" in l[2] for l in sc) or P.has_call(sc, r"regex::Match(::<'h>)?::end$")
             len_in_start = P.has_call(sc, r"<impl str>::len$")
             uses_regex = name != "line-pattern"
             # the left offset as a length difference is right exactly when only the LEFT side was
@@ -191,7 +191,7 @@ def run(ctx, out, tier):
                     what.append("derives from a string length (a length difference is only the left offset when nothing was trimmed on the right)")
                 out.viol("C10.cols", "C10.cols|%s|start" % name, where, "start column of a %s violation: %s" % (name, "; ".join(what)))
             lenr = P.has_call(ec, r"<impl str>::len$")
-            rend = any(l[0] == "call" and re.search(r"regex::Match(::<'h>)?::range$", l[1]) and "end" in l[2] for l in ec)
+            rend = any(l[0] == "call" and re.search(r"regex::Match(::<'h>)?::range$", l[1]) and "end" in l[2] for l in ec) or P.has_call(ec, r"regex::Match(::<'h>)?::end$")
             if lenr and (rend or not uses_regex):
                 n_cols += 1
             else:
